@@ -113,12 +113,18 @@ type TLSServer struct {
 }
 
 // ServeTLS starts the handshake and the line reader.
-func ServeTLS(mc *MemConn) *TLSServer {
+func ServeTLS(mc *MemConn) *TLSServer { return ServeTLSGated(mc, nil) }
+
+// ServeTLSGated is ServeTLS with a server that does not answer the client's hello before gate is closed (nil: at once).
+func ServeTLSGated(mc *MemConn, gate <-chan struct{}) *TLSServer {
 	cert, _, _ := TestTLS()
 	t := &TLSServer{ch: make(chan struct{}), done: make(chan struct{})}
 	t.conn = tls.Server(mc.ServerSide(), &tls.Config{Certificates: []tls.Certificate{cert}})
 	go func() {
 		defer close(t.done)
+		if gate != nil {
+			<-gate
+		}
 		if err := t.conn.Handshake(); err != nil {
 			t.mu.Lock()
 			t.Err = err
